@@ -280,4 +280,77 @@ theorem parseLiteral_int_range (l : Value) (i : Int) (h : parseLiteral .int l = 
     · cases h
   · cases h
 
+/-! ## `hasVars` is the full scan: it finds a variable at any depth, list index and field position -/
+
+/-- a variable occurs somewhere inside the literal (any depth, any list index, any field position) -/
+inductive VarIn : Value → Prop
+  | var (x : String) (loc : Loc) : VarIn (.var x loc)
+  | list (vs : List Value) (loc : Loc) (v : Value) : v ∈ vs → VarIn v → VarIn (.list vs loc)
+  | obj (fs : List ObjField) (loc : Loc) (f : ObjField) : f ∈ fs → VarIn f.value → VarIn (.obj fs loc)
+
+mutual
+theorem hasVars_sound : ∀ (l : Value), hasVars l = true → VarIn l
+  | .var x loc, _ => .var x loc
+  | .list vs loc, h => by
+    obtain ⟨v, hm, hv⟩ := hasVarsList_sound vs (by simpa [hasVars] using h)
+    exact .list vs loc v hm hv
+  | .obj fs loc, h => by
+    obtain ⟨f, hm, hv⟩ := hasVarsFields_sound fs (by simpa [hasVars] using h)
+    exact .obj fs loc f hm hv
+  | .int _ _, h => by simp [hasVars] at h
+  | .float _ _, h => by simp [hasVars] at h
+  | .str _ _, h => by simp [hasVars] at h
+  | .bool _ _, h => by simp [hasVars] at h
+  | .enum _ _, h => by simp [hasVars] at h
+theorem hasVarsList_sound : ∀ (vs : List Value), hasVarsList vs = true → ∃ v ∈ vs, VarIn v
+  | [], h => by simp [hasVarsList] at h
+  | v :: vs, h => by
+    simp only [hasVarsList, Bool.or_eq_true] at h
+    rcases h with h | h
+    · exact ⟨v, by simp, hasVars_sound v h⟩
+    · obtain ⟨w, hm, hw⟩ := hasVarsList_sound vs h
+      exact ⟨w, by simp [hm], hw⟩
+theorem hasVarsFields_sound : ∀ (fs : List ObjField), hasVarsFields fs = true → ∃ f ∈ fs, VarIn f.value
+  | [], h => by simp [hasVarsFields] at h
+  | (.mk n v l) :: fs, h => by
+    simp only [hasVarsFields, Bool.or_eq_true] at h
+    rcases h with h | h
+    · exact ⟨.mk n v l, by simp, hasVars_sound v h⟩
+    · obtain ⟨w, hm, hw⟩ := hasVarsFields_sound fs h
+      exact ⟨w, by simp [hm], hw⟩
+end
+
+theorem hasVarsList_of_mem {vs : List Value} {v : Value} (hm : v ∈ vs) (hv : hasVars v = true) :
+    hasVarsList vs = true := by
+  induction vs with
+  | nil => cases hm
+  | cons w ws ih =>
+    simp only [hasVarsList, Bool.or_eq_true]
+    rcases List.mem_cons.mp hm with rfl | hm'
+    · exact Or.inl hv
+    · exact Or.inr (ih hm')
+
+theorem hasVarsFields_of_mem {fs : List ObjField} {f : ObjField} (hm : f ∈ fs) (hv : hasVars f.value = true) :
+    hasVarsFields fs = true := by
+  induction fs with
+  | nil => cases hm
+  | cons g gs ih =>
+    obtain ⟨n, v, l⟩ := g
+    simp only [hasVarsFields, Bool.or_eq_true]
+    rcases List.mem_cons.mp hm with rfl | hm'
+    · exact Or.inl hv
+    · exact Or.inr (ih hm')
+
+theorem hasVars_complete {l : Value} (h : VarIn l) : hasVars l = true := by
+  induction h with
+  | var x loc => rfl
+  | list vs loc v hm _ ih => simp only [hasVars]; exact hasVarsList_of_mem hm ih
+  | obj fs loc f hm _ ih => simp only [hasVars]; exact hasVarsFields_of_mem hm ih
+
+theorem hasVars_iff_varIn (l : Value) : hasVars l = true ↔ VarIn l := ⟨hasVars_sound l, hasVars_complete⟩
+
+theorem astHasVariables_iff' (asts : List Argument) :
+    astHasVariables asts = true ↔ ∃ a ∈ asts, VarIn a.value := by
+  simp only [astHasVariables, List.any_eq_true, hasVars_iff_varIn]
+
 end GqlModel.Coerce
